@@ -46,6 +46,7 @@ func canonReason(s string) string {
 	s = regexp.MustCompile(`struct \{[^}]*\}`).ReplaceAllString(s, "struct{..}")
 	s = regexp.MustCompile(`\.ssa:\d+`).ReplaceAllString(s, ".ssa:N")
 	s = regexp.MustCompile(`%t\d+`).ReplaceAllString(s, "%t")
+	s = regexp.MustCompile(`Import #\d+`).ReplaceAllString(s, "Import #N")
 	if len(s) > 120 {
 		s = s[:120]
 	}
@@ -251,6 +252,16 @@ func (r *runner) observe(cases []*bcase, idx []int, res []obs, real bool) {
 		}
 		return
 	}
+	if strings.HasPrefix(term, "crash:invalid") && strings.Contains(term, "Import #") {
+		// the module cannot even be instantiated with the shipped runtime.js (an import is
+		// missing): the target does not support a construct all cases of this pack share (packs
+		// are homogeneous in root constructor, optional-ness and i128 use). Nothing ran; the
+		// cases are outside the quantifier for this target, like a compile-time rejection.
+		for _, i := range idx {
+			res[i] = obs{rejected: true, reason: "module cannot be instantiated: " + strings.TrimPrefix(term, "crash:invalid:"), alone: len(idx) == 1}
+		}
+		return
+	}
 	if len(idx) == 1 {
 		res[idx[0]] = obs{lines: segs[0], term: term, alone: true}
 		return
@@ -336,9 +347,9 @@ func runTarget(c *vl.Ctx, r *runner, cases []*bcase, packSize, confirmCap int) t
 	cls := func(k *bcase) string {
 		if k.group != "" {
 			// grouped cases stay next to each other (generation order), simplest types first
-			return fmt.Sprintf("%d/grouped/%v/%s", k.t.depth(), k.t.hasOpt(), k.t.rootName())
+			return fmt.Sprintf("%d/grouped/%v%v/%s", k.t.depth(), k.t.hasOpt(), k.t.hasLeaf("i128"), k.t.rootName())
 		}
-		return fmt.Sprintf("%d/%s/%s/%v/%s", k.t.depth(), k.phase, k.skind, k.t.hasOpt(), k.t.rootName())
+		return fmt.Sprintf("%d/%s/%s/%v%v/%s", k.t.depth(), k.phase, k.skind, k.t.hasOpt(), k.t.hasLeaf("i128"), k.t.rootName())
 	}
 	sort.SliceStable(order, func(a, b int) bool { return cls(cases[order[a]]) < cls(cases[order[b]]) })
 	var packs [][]int
@@ -358,6 +369,27 @@ func runTarget(c *vl.Ctx, r *runner, cases []*bcase, packSize, confirmCap int) t
 		}
 		packs = append(packs, order[i:j])
 		i = j
+	}
+	// breadth first: the first pack of every class, then the second of every class, ... so that a
+	// run stopped by the budget has still exercised every class of types and phases
+	{
+		rank := make([]int, len(packs))
+		seenCls := map[string]int{}
+		for pi, p := range packs {
+			c0 := cls(cases[p[0]])
+			rank[pi] = seenCls[c0]
+			seenCls[c0]++
+		}
+		ord := make([]int, len(packs))
+		for i := range ord {
+			ord[i] = i
+		}
+		sort.SliceStable(ord, func(a, b int) bool { return rank[ord[a]] < rank[ord[b]] })
+		np := make([][]int, len(packs))
+		for i, pi := range ord {
+			np[i] = packs[pi]
+		}
+		packs = np
 	}
 	done := make([]bool, len(cases))
 	vl.ParDo(len(packs), r.workers, func(pi int) {
@@ -387,6 +419,9 @@ func runTarget(c *vl.Ctx, r *runner, cases []*bcase, packSize, confirmCap int) t
 		f := target + "/" + k.t.rootName()
 		if k.t.k != kOpt && k.t.k != kRes && k.t.hasOpt() {
 			f += "+opt"
+		}
+		if k.t.hasLeaf("i128") {
+			f += "+i128"
 		}
 		e := out.fam[f]
 		if o.rejected {
